@@ -2,7 +2,8 @@
 """confirm_stable.py <seed dir>... : apply the seed's patch in a scratch worktree and run the pinned baseline there;
 prints which of the 526 stable tests stop passing (none expected for a valid seed)."""
 import json, os, subprocess, sys, tempfile, xml.etree.ElementTree as ET
-WT = "/tmp/wt_confirm"
+import os as _os
+WT = _os.environ.get("CONFIRM_WT", "/tmp/wt_confirm")
 if not os.path.isdir(WT):
     subprocess.run(["git", "-C", "/repo", "worktree", "add", "-q", "--detach", WT, "HEAD"], check=True)
 b = json.load(open("/root/.vp/BASELINE.json"))
